@@ -977,14 +977,41 @@ func checkC18(R *Run) {
 	checkLayoutsFiltered(R, func(t string) bool { return strings.Contains(t, "News") })
 
 	L := newLockInfo(P)
-	wf := R.mustFn("(*mobius.ThreadedNewsYAML).writeFile")
+	wf := P.fn("(*mobius.ThreadedNewsYAML).writeFile")
+	// the persist step: the call of writeFile — or, when its body was moved into a helper with another signature and is
+	// found in place, the rename onto the store's file path that it ends with
+	isRenameOntoStore := func(ins ssa.Instruction) bool {
+		ci, ok := ins.(ssa.CallInstruction)
+		if !ok || calleeName(ci.Common()) != "os.Rename" || len(ci.Common().Args) != 2 {
+			return false
+		}
+		return stripRecv(P.sym(ci.Common().Args[1])) == "field:mobius.ThreadedNewsYAML.filePath"
+	}
+	inlinePersist := false
+	if wf == nil {
+		for _, m := range []string{"CreateGrouping", "DeleteNewsItem", "PostArticle", "DeleteArticle"} {
+			if fn := P.fn("(*mobius.ThreadedNewsYAML)." + m); fn != nil {
+				for _, ci := range callsIn(fn) {
+					if isRenameOntoStore(ci.(ssa.Instruction)) {
+						inlinePersist = true
+					}
+				}
+			}
+		}
+		if !inlinePersist {
+			wf = R.mustFn("(*mobius.ThreadedNewsYAML).writeFile") // reports the missing anchor
+		}
+	}
 	for _, m := range []string{"CreateGrouping", "DeleteNewsItem", "PostArticle", "DeleteArticle"} {
 		fn := R.mustFn("(*mobius.ThreadedNewsYAML)." + m)
-		if fn == nil || wf == nil {
+		if fn == nil || wf == nil && !inlinePersist {
 			continue
 		}
 		R.analysed(fname(fn))
 		isWF := func(ins ssa.Instruction) bool {
+			if inlinePersist {
+				return isRenameOntoStore(ins)
+			}
 			ci, ok := ins.(ssa.CallInstruction)
 			return ok && calleeName(ci.Common()) == "(*mobius.ThreadedNewsYAML).writeFile"
 		}
@@ -1005,6 +1032,9 @@ func checkC18(R *Run) {
 			}
 		}
 		R.check(okAll && nRet > 0, "persist-on-mutate", fname(fn), P.pos(fn.Pos()), "every success return passes through writeFile under the mutex", why)
+	}
+	if wf == nil && inlinePersist {
+		wf = P.fn("(*mobius.ThreadedNewsYAML).CreateGrouping") // where the rename onto the store's path is found
 	}
 	if ld := R.mustFn("(*mobius.ThreadedNewsYAML).Load"); ld != nil && wf != nil {
 		reads := false
